@@ -2,7 +2,8 @@
    Property statements only; proofs live in Proofs/Paths.v and Proofs/PathsWin.v. *)
 From Coq Require Import ZArith List Bool.
 From Verif Require Import Lib.Sx Lib.PyStr Lib.PosixPath Lib.WinPath Model.Paths Model.PathsWin Model.PathsSess
-  Proofs.PosixPathFacts Proofs.Paths Proofs.PathsWin Proofs.PathsSess.
+  Model.ResolveCheck Proofs.PosixPathFacts Proofs.Paths Proofs.PathsWin Proofs.PathsSess.
+From Verif Require Gen.Resolve.
 Import ListNotations.
 Open Scope Z_scope.
 
@@ -175,6 +176,20 @@ Theorem C02_path_output_history_independent : forall users st1 st2 s,
   snd (sess_step users st1 (EPath s)) = snd (sess_step users st2 (EPath s)).
 Proof. exact path_output_history_independent. Qed.
 Print Assumptions C02_path_output_history_independent.
+
+(* ... and the models may take get_paths to be such a function because TODAY's source says so
+   (Gen/Resolve.v is regenerated from server.py on every run): Server.get_paths is a plain @staticmethod of
+   (connection, path) that reads nothing of the connection but current_directory and user(.base_path), stores
+   or deletes nothing on it, uses the name `connection` in no other way (no `in` test, no call), loads no
+   module-level name but pathlib, has no global/nonlocal, nested definition or attribute store. *)
+Theorem C02_translator_ok : Gen.Resolve.translator_ok = true.
+Proof. vm_compute. reflexivity. Qed.
+
+Theorem C02_get_paths_reads_only_user_and_cwd :
+  check_get_paths_pure Gen.Resolve.gp_decorators Gen.Resolve.gp_params Gen.Resolve.gp_conn_reads
+    Gen.Resolve.gp_conn_writes Gen.Resolve.gp_conn_other Gen.Resolve.gp_free_names Gen.Resolve.gp_scope = true.
+Proof. vm_compute. reflexivity. Qed.
+Print Assumptions C02_get_paths_reads_only_user_and_cwd.
 
 (* FULL STATEMENT (does not hold): every path handed to the backend by a command lies inside the
    base directory of the user logged in when the command runs:
